@@ -8,6 +8,7 @@ import (
 	"crypto/rand"
 	"encoding/binary"
 	"hash/crc32"
+	"io"
 
 	"github.com/cossacklabs/themis/gothemis/errors"
 )
@@ -52,7 +53,13 @@ func New(keytype int) (*Keypair, error) {
 	if keytype != TypeEC {
 		return nil, ErrInvalidType
 	}
-	k, err := ecdh.X25519().GenerateKey(rand.Reader)
+	// not ecdh.GenerateKey: it calls randutil.MaybeReadByte, which makes the number of bytes drawn
+	// from a deterministic reader vary from run to run
+	seed := make([]byte, 32)
+	if _, err := io.ReadFull(rand.Reader, seed); err != nil {
+		return nil, ErrGenerateKeypair
+	}
+	k, err := ecdh.X25519().NewPrivateKey(seed)
 	if err != nil {
 		return nil, ErrGenerateKeypair
 	}
